@@ -189,7 +189,7 @@ namespace vf
     // defects (D7-D9, reported by C10/C11) are repaired -- before that every search that
     // includes a parallel router dies or hangs in the same place and hides everything else.
 #ifndef VF_PARALLEL_ROUTERS
-#define VF_PARALLEL_ROUTERS 0
+#define VF_PARALLEL_ROUTERS 1
 #endif
     inline int thread_choice(vg::Src& s, bool allow_parallel)
     {
